@@ -42,3 +42,10 @@ Qed.
 (* the obligation is not vacuous: a narrowed or removed lock fails it *)
 Lemma narrowed_lock_fails : narrowed_paths_fail.
 Proof. vm_compute. repeat split. Qed.
+
+(* every counter write is decided from a value of that counter read in the same exclusive section *)
+Lemma id_paths_rechecked : forallb path_rechecked id_site_paths = true.
+Proof. vm_compute. reflexivity. Qed.
+
+Lemma stale_snapshot_fails : path_ok stale_snapshot_path = true /\ path_rechecked stale_snapshot_path = false.
+Proof. vm_compute. split; reflexivity. Qed.
